@@ -16,21 +16,26 @@ package main
 //                 has returned) | silent | drop (connection closed without an answer)
 // deadline-class  cfg     the ctx deadline is chosen by the caller / config: D = 250 ms here
 //                 const60 hard-coded 60 s in the wrapper (silent only in the thorough tier)
-//                 bg5     context.Background() + gocbcore's own 5 s (cbMetadata.Load)
+//                 bg5     context.Background() + gocbcore's own 5 s (cbMetadata.Load; `GetXattrs.bg` =
+//                         the exported helper called exactly as cbMetadata.Load calls it, which is the
+//                         only way to run the silent-server case of that call without its process-
+//                         killing panic: must come back with a time-out after 5 s, margin 2 s)
 // result-class    ok (returned success and the node had sent a success reply before) |
 //                 ok-unconfirmed (success although the node confirmed nothing) | ok-empty
 //                 (success, no data, nothing confirmed: GetVBucketSeqNos, finding F7) |
 //                 ok-noexist (cbMetadata.Load: "no checkpoint" after KEY_ENOENT / corrupt) |
 //                 server-error | unhealthy (Ping) | timeout | canceled | conn-error |
-//                 other-error | panic:<class> (cbMembership's recoverable fail-stop)
-// time-class      before (< D) | ontime (D .. D + 1 s) | late
+//                 other-error | panic:<class> (cbMembership's recoverable fail-stop) |
+//                 hang (GetXattrs.bg only: the call had not returned after 5 s + 2 s + 0.5 s)
+// time-class      before (< D) | ontime (D .. D + 1 s; bg5: D + 2 s) | late
 // leak            goroutines parked in go-dcp's couchbase package because of this case
 //                 after the settling time (late reply delivered, 60 ms quiet)
 //
 // Three lanes run concurrently, each with its own node + client and a disjoint
 // set of wrapper functions (the leak count filters goroutine stacks by function
 // name); `drop` cases and the 60 s `silent` cases get a node of their own and
-// run in two final phases (drops: sequential per lane; silences: concurrent).  The line `ao-wire-f7probe` is emitted first:
+// run in two final phases (drops: sequential per lane; silences: concurrent).  The line `ao-wire-f7probe` is emitted first
+// (in a replay: after the replayed cases, see runC20W):
 // does GetVBucketSeqNos hand back a server error status (`propagates`) or not
 // (`swallows`, the unchanged tree, F7)?  Its answer travels on the op lines of the
 // GetVBucketSeqNos error cases so that the (stateless) Lean handler can tell the
@@ -67,6 +72,10 @@ const (
 	awShort  = awD / 3
 	awLong   = awD*2 + awD/4
 	awMargin = time.Second
+	// deadline class bg5: gocbcore's own 5 s, accepted up to 7 s; the harness gives up at 7.5 s (`hang`)
+	awBgD      = 5 * time.Second
+	awBgMargin = 2 * time.Second
+	awBgGiveUp = awBgD + awBgMargin + 500*time.Millisecond
 )
 
 // ---------------------------------------------------------------- environment
@@ -229,11 +238,15 @@ func awParked(filter *regexp.Regexp) int {
 	return cnt
 }
 
-func awTimeClass(el, d time.Duration) string {
+func awTimeClass(el, d time.Duration, dclass string) string {
+	margin := awMargin
+	if dclass == "bg5" {
+		margin = awBgMargin
+	}
 	switch {
 	case el < d:
 		return "before"
-	case el <= d+awMargin:
+	case el <= d+margin:
 		return "ontime"
 	}
 	return "late"
@@ -471,6 +484,33 @@ func awWrappers() []*awWrapper {
 				}
 				return awClass(err)
 			}},
+		// ---- appended last (the order of the rows above fixes the order of the existing jobs): the exported
+		// helper with a context WITHOUT deadline, exactly as cbMetadata.Load l.84 calls it.  Both cases
+		// run in the solo phases on a node of their own (never on a lane: no PRNG draw is added).
+		// `silent`: only gocbcore's own `Deadline: time.Now().Add(5 s)` (doc_op.go l.186) ends the call; a call
+		// that is still pending after awBgGiveUp is reported as `hang` and left behind.
+		{name: "GetXattrs.bg", lane: 0, dclass: "bg5", op: memd.CmdSubDocMultiLookup, behs: []string{"prompt", "silent"}, prepare: put("GetXattrs.bg"),
+			frames: `couchbase\.GetXattrs`,
+			call: func(e *awEnv, k int) string {
+				type res struct {
+					v   []byte
+					err error
+				}
+				ch := make(chan res, 1)
+				go func() {
+					v, err := couchbase.GetXattrs(context.Background(), agent(e), "_default", "_default", awKey("GetXattrs.bg", k), helpers.Name)
+					ch <- res{v, err}
+				}()
+				select {
+				case r := <-ch:
+					if r.err == nil && string(r.v) != `{"x":1}` {
+						return "ok-wrong-data"
+					}
+					return awClass(r.err)
+				case <-time.After(awBgGiveUp):
+					return "hang"
+				}
+			}},
 	}
 	for _, w := range ws {
 		awFrameRe[w.name] = regexp.MustCompile(w.frames)
@@ -502,7 +542,7 @@ func awDeadline(dclass string) time.Duration {
 	case "cfg":
 		return awD
 	case "bg5":
-		return 5 * time.Second
+		return awBgD
 	}
 	return 60 * time.Second
 }
@@ -588,7 +628,7 @@ func awRunOnce(e *awEnv, w *awWrapper, beh string, k int, f7 string) awResult {
 		tags = append(tags, "scripted-request-never-seen")
 		class += "(unscripted)"
 	}
-	return awResult{op: op, obs: fmt.Sprintf("%s %s leak=%d", class, awTimeClass(el, awDeadline(w.dclass)), leak), tags: tags}
+	return awResult{op: op, obs: fmt.Sprintf("%s %s leak=%d", class, awTimeClass(el, awDeadline(w.dclass), w.dclass), leak), tags: tags}
 }
 
 // does GetVBucketSeqNos hand a server error status back?
@@ -647,7 +687,9 @@ func runC20W(c *Ctx) {
 			for _, beh := range w.behs {
 				j := awJob{w, beh}
 				switch {
-				case beh == "drop":
+				case beh == "drop", w.name == "GetXattrs.bg":
+					// GetXattrs.bg (both tiers): `prompt` joins the sequential own-node cases of lane 0, `silent`
+					// (5 s) the concurrent final phase
 					solo = append(solo, j)
 				case beh == "silent" && w.dclass != "cfg":
 					// hard-coded 60 s: thorough tier only, and only for three wrappers
@@ -672,8 +714,16 @@ func runC20W(c *Ctx) {
 	probeEnv := newAwEnv(false, "awprobe")
 	f7 := awF7Probe(probeEnv)
 	probeEnv.close()
-	c.E.Line("ao-wire-f7probe", f7)
-	c.E.EndCase(true, "f7:"+f7)
+	// In a replay the fact line comes AFTER the replayed cases: bin/vcheck judges a re-run (retry_divergence,
+	// shrinking) by the FIRST case of the replay's output, which must be the replayed op and not this line
+	// (otherwise every divergence of this stream would be written off as a timing flake).
+	probeLine := func() {
+		c.E.Line("ao-wire-f7probe", f7)
+		c.E.EndCase(true, "f7:"+f7)
+	}
+	if replayFile == "" {
+		probeLine()
+	}
 
 	var mu sync.Mutex
 	var results []awResult
@@ -697,7 +747,7 @@ func runC20W(c *Ctx) {
 	// solo phase: one node + client per case.  The leak count filters goroutine stacks by go-dcp function
 	// name, so cases that share functions must not overlap: `drop` cases run one after the other per lane
 	// (three lanes in parallel, disjoint function sets); afterwards the 60 s `silent` cases of the thorough
-	// tier (pairwise disjoint function sets) run concurrently.
+	// tier and the 5 s `silent` case of GetXattrs.bg (pairwise disjoint function sets) run concurrently.
 	var dropJobs [3][]awJob
 	var longJobs []awJob
 	for _, j := range solo {
@@ -735,6 +785,9 @@ func runC20W(c *Ctx) {
 	for _, r := range results {
 		c.E.Line(r.op, r.obs)
 		c.E.EndCase(!strings.Contains(r.op, " prompt "), r.tags...)
+	}
+	if replayFile != "" {
+		probeLine()
 	}
 	// whole-process goroutine balance after every client and node has been closed
 	leaked := 0
